@@ -596,7 +596,7 @@ func reachFromInstr(from ssa.Instruction, removed []Edge, barrier func(ssa.Instr
 			start = i + 1
 		}
 	}
-	reachCore([]rstate{{b0, nil}}, start, removed, func(b *ssa.BasicBlock, st int) bool {
+	reachCore([]rstate{{b: b0}}, start, removed, func(b *ssa.BasicBlock, st int) bool {
 		for i := st; i < len(b.Instrs); i++ {
 			ins := b.Instrs[i]
 			if barrier != nil && barrier(ins) {
